@@ -89,6 +89,28 @@ func probe(a arg) (string, string) {
 	return "", ""
 }
 
+type flightArg struct {
+	A uint64 `json:"a"`
+	B uint64 `json:"b"`
+	F int    `json:"flags"`
+}
+
+// a numeral handed out by one call must still read the same after a later call
+func probeFlight(p flightArg) (string, string) {
+	wa, wb := oracle.RomanText(p.A, 0), oracle.RomanText(p.B, 0)
+	ta, _ := roman.Number(p.A).MarshalText()
+	tb, _ := roman.Number(p.B).MarshalText()
+	fa, _ := roman.DefaultFormatter(nil, roman.Number(p.A), roman.Format(p.F))
+	fb, _ := roman.DefaultFormatter(nil, roman.Number(p.B), roman.Format(p.F))
+	if string(ta) != wa || string(tb) != wb || string(fa) != oracle.RomanText(p.A, p.F) || string(fb) != oracle.RomanText(p.B, p.F) {
+		return "text_overwritten_by_later_call", fmt.Sprintf("numerals of %d and %d kept across later calls read %q, %q, %q, %q", p.A, p.B, ta, tb, fa, fb)
+	}
+	if g, err := roman.DefaultParser(ta, 0); err != nil || uint64(g) != p.A {
+		return "text_overwritten_by_later_call", fmt.Sprintf("the numeral kept from MarshalText(%d) parses to %d, %v after later calls", p.A, uint64(g), err)
+	}
+	return "", ""
+}
+
 func main() {
 	mc.Main("C02", "every n in [0,130000] x all 128 flag subsets through DefaultFormatter and back through every parser entry point; every n x every DefaultFormat through MarshalText/String/%s and the four verbs; "+
 		"non-trivial = numeral contains a 4 or 9 digit or a five-symbol together with a flag that affects it", func(r *mc.Run) {
@@ -98,6 +120,20 @@ func main() {
 		r.Assume("reference: independent digit-by-digit generator (one/five/ten symbol per decimal place, explicit 4/9 rules, ASCII case shift)")
 		r.Assume("numbers whose numeral is longer than MaxInputLength=128 are only formatted, not parsed back")
 		const N = 130000
+		pfl := mc.NewProbe(r, "two_results_in_flight", nil, probeFlight)
+		r.Phase("serial: two numerals in flight (a result must survive later calls), all ordered pairs of 14 numbers x 3 flag sets", "complete for the listed numbers", func() {
+			r.Serial(func(w *mc.W) {
+				ns := []uint64{1, 4, 9, 14, 40, 90, 400, 900, 1994, 3888, 3999, 4999, 666, 2024}
+				for _, a := range ns {
+					for _, b := range ns {
+						for _, f := range []int{0, 64, 127} {
+							w.Point()
+							pfl.Do(w, flightArg{a, b, f})
+						}
+					}
+				}
+			})
+		})
 		r.Phase("n in [0,130000] x 128 flag sets: DefaultFormatter text and round trip through DefaultParser[string|[]byte], UnmarshalText, Valid", "complete", func() {
 			r.Parallel(N+1, 64, func(w *mc.W, i int64) {
 				n := uint64(i)
